@@ -29,6 +29,9 @@ def quiescence(transfer, size, thr, chunk, io, fault_at, phase, l1, l2, l3, l4, 
     st, val = N.finish(c)
     if st not in ('ok', 'exc'):
         return 'c04: transfer not done at quiescence'
+    r = N.effect_reason(c, transfer, size)
+    if r:
+        return 'c04: ' + r
     return None
 
 
